@@ -57,6 +57,7 @@ theorem Pres.pDirectAbstractDeclarator : Pres R (pDirectAbstractDeclarator self)
   unfold PycModel.pDirectAbstractDeclarator; pres
 
 /-! statements -/
+set_option maxHeartbeats 2000000 in
 theorem Pres.pStatement : Pres R (pStatement self) := by
   unfold PycModel.pStatement; pres
 theorem Pres.pPragmacompOrStatement : Pres R (pPragmacompOrStatement self) := by
